@@ -11,7 +11,7 @@ from ..base import Harness
 from ..core import deep_eq
 from .. import gen
 from ..oracles import linegrammar as G, conformance as CF
-from . import pipeline as P
+from . import common, pipeline as P
 from .c01 import FAMILY, VIEWS, XML
 
 
@@ -61,7 +61,32 @@ class C02(Harness):
             if sid == 'S7':
                 for sh in ('k', 'ukc'):
                     us.append({'schema': sid, 'shape': sh, 'nlen': 2, 'vlen': 3})
+        # the schema read from a nameless file object by a SchemaLoader that has read another nameless
+        # document before (each document is its own schema)
+        for sid in ('S2', 'S4', 'S15'):
+            for sh in ('k', 'ukc'):
+                us.append({'schema': sid, 'shape': sh, 'nlen': 2, 'vlen': 1, 'loader': 'reused'})
         return us
+
+    def _run(self, unit, lines):
+        if unit.get('loader') != 'reused':
+            return P.run_load(XML[unit['schema']], lines)
+        import io
+        import ZConfig
+        import ZConfig.loader
+        sl = ZConfig.loader.SchemaLoader()
+        try:
+            sl.loadFile(io.StringIO(XML['S6']))
+            schema = sl.loadFile(io.StringIO(XML[unit['schema']]))
+        except Exception as e:
+            return ('crash', 'schema:' + type(e).__name__, e)
+        try:
+            cfg, handler = ZConfig.loadConfigFile(schema, common.make_file(lines), P.URL)
+        except ZConfig.ConfigurationError as e:
+            return ('reject', type(e).__name__, e)
+        except Exception as e:
+            return ('crash', type(e).__name__, e)
+        return ('ok', cfg, handler)
 
     def inputs(self, eng, unit):
         lines, holes = gen.skeleton(unit['shape'])
@@ -72,7 +97,7 @@ class C02(Harness):
         return P.fill(lines, inp)
 
     def observe(self, unit, inp):
-        r = P.run_load(XML[unit['schema']], self.lines(unit, inp))
+        r = self._run(unit, self.lines(unit, inp))
         if r[0] == 'ok':
             # every slot holds its own value: no list / dict object may sit at two places of the tree
             # (a converted default handed to two sections would be shared by them)
